@@ -65,9 +65,23 @@ class SourceProxy:
         return getattr(self.__dict__["_inner"], name)
 
 
+class SourceIterable:
+    """an async *iterable* that is not its own iterator: __aiter__ hands out the (single) cursor; counters via __getattr__"""
+
+    def __init__(self, inner):
+        self.__dict__["_inner"] = inner
+
+    def __aiter__(self):
+        return self.__dict__["_inner"]
+
+    def __getattr__(self, name):
+        return getattr(self.__dict__["_inner"], name)
+
+
 def make_source(items, susp):
     src = Source(items, susp)
-    return SourceProxy(src) if (len(src.items) + susp) % 3 == 2 else src
+    k = (len(src.items) + susp) % 3
+    return SourceProxy(src) if k == 2 else (SourceIterable(src) if k == 1 else src)
 
 
 class Rec:
@@ -111,7 +125,7 @@ class System:
         self.src = make_source(cfg["items"], cfg["susp"])
         self.lock = (YieldingLock(self.sched) if cfg["lock"] == "yielding" else Lock(self.sched)) if cfg["lock"] else None
         n = len(cfg["scripts"])
-        self.tee = a.tee(self.src, n, lock=self.lock) if self.lock else a.tee(self.src, n)
+        self.tee = a.tee(self.src, n, lock=self.lock) if self.lock is not None else a.tee(self.src, n)
         self.children = list(self.tee)
         self.recs = [Rec() for _ in range(n)]
         bufs = getattr(self.tee, "_buffers", [])
@@ -129,7 +143,7 @@ class System:
     def snapshot(self):
         bufs = getattr(self.tee, "_buffers", [])
         return {"fetched": self.src.fetched, "closed": self.src.closed,
-                "lock": (self.lock.owner if self.lock and self.lock.held else None),
+                "lock": (self.lock.owner if self.lock is not None and self.lock.held else None),
                 "bufs": [(self.buf_ids.get(id(b), 99), len(b)) for b in bufs],
                 "children": [(len(r.out), self.dead(i), r.stops) for i, r in enumerate(self.recs)]}
 
